@@ -90,6 +90,20 @@ CLAIMED.update({
         note=TRUST),
 })
 
+CLAIMED.update({
+    "C11": dict(
+        technique="bounded symbolic execution of the real source (symx) + SMT (z3), summand-wise lemma cut; integer-arithmetic encoding of the position row",
+        text="get_linear_complexity executed symbolically for the three types on symbolic sequences: K = floor((N-w)/s)+1 columns, strictly increasing positions in 1..N, values in [0,1], "
+             "each value's encoding mentions only its own window's residues; WF proved equal to the Shannon entropy (base alphabet size) of the reduced window composition for all 12 alphabets; "
+             "unknown types and w > N end in an exception on every path; get_indexed_complexity_vector proved (symbolic sequence length up to 10000, K enumerated) to give K in-range, strictly increasing positions.",
+        note=TRUST + "math.log evaluated per count case; np.arange modelled as the arithmetic progression it denotes."),
+    "C14": dict(
+        technique="bounded symbolic execution of the real source (symx) + SMT (z3) over symbolic file contents (open/readlines stubbed)",
+        text="parseSeqFile and SequenceParameters(sequenceFile=...) executed symbolically on files of L lines x M symbolic printable-ASCII characters: on every path accepted <=> reference grammar, "
+             "the result equals the concatenated residue letters, and the file-built object has the state of the object built from that string; rejected => grammar violated.",
+        note=TRUST + "File I/O replaced by a stub returning symbolic lines; nothing asserted where the property is silent (header after content, no residues)."),
+})
+
 REASON_PENDING = "check not built yet (framework under construction); see DESIGN.md section 5 for the plan"
 
 
